@@ -1,4 +1,6 @@
 -- root of the library: every property module (and through them the model, specs and lemmas)
+import ScadVerif.Props.C01
+import ScadVerif.Props.C02
 import ScadVerif.Props.C09
 import ScadVerif.Props.C10
 import ScadVerif.Props.C11
